@@ -70,6 +70,9 @@ struct ModelSpec {
     ports: BTreeMap<usize, Vec<ConnSpec>>,
     react: Vec<POp>,
     initops: Vec<POp>,
+    dead: bool,
+    panic_on: Option<u128>,
+    sleep_on: Option<u128>,
 }
 
 struct Node {
@@ -79,6 +82,8 @@ struct Node {
     reqs: HashMap<usize, Requestor<u128, u128>>,
     react: Vec<POp>,
     initops: Vec<POp>,
+    panic_on: Option<u128>,
+    sleep_on: Option<u128>,
 }
 
 impl Node {
@@ -112,9 +117,19 @@ impl Node {
     fn leave(&self) {
         self.sh.busy.lock().unwrap()[self.id] = false;
     }
+    fn fault(&self, p: u128) {
+        if self.panic_on == Some(p) {
+            self.leave();
+            panic!("boom {p}");
+        }
+        if self.sleep_on == Some(p) {
+            std::thread::sleep(std::time::Duration::from_millis(400));
+        }
+    }
     async fn input(&mut self, p: u128, cx: &mut Context<Self>) {
         self.enter();
         self.sh.log.lock().unwrap().push(Rec::Handle(self.id, p));
+        self.fault(p);
         self.sh.ctx_names.lock().unwrap().push((self.id, cx.name().to_string()));
         self.run_script(false, p).await;
         self.sh.log.lock().unwrap().push(Rec::Done(self.id, p));
@@ -123,6 +138,7 @@ impl Node {
     async fn replier(&mut self, p: u128) -> u128 {
         self.enter();
         self.sh.log.lock().unwrap().push(Rec::Handle(self.id, p));
+        self.fault(p);
         self.run_script(false, p).await;
         self.sh.log.lock().unwrap().push(Rec::Done(self.id, p));
         self.leave();
@@ -161,6 +177,7 @@ struct Bench {
     sim: Simulation,
     addrs: Vec<Address<Node>>,
     sinks: HashMap<usize, EventBuffer<u128>>,
+    srcs: HashMap<usize, nexosim::ports::EventSource<u128>>,
     _orphans: Vec<Mailbox<Node>>,
 }
 
@@ -187,7 +204,7 @@ fn qname(specs: &[ModelSpec], i: usize) -> String {
     }
 }
 
-fn build(specs: &[ModelSpec], threads: usize, sh: &Arc<Shared>) -> Result<Bench, (String, HashMap<usize, EventBuffer<u128>>)> {
+fn build(specs: &[ModelSpec], srcs_spec: &BTreeMap<usize, Vec<ConnSpec>>, timeout_ms: u64, threads: usize, sh: &Arc<Shared>) -> Result<Bench, (String, HashMap<usize, EventBuffer<u128>>)> {
     let n = specs.len();
     let mut boxes: Vec<Option<Mailbox<Node>>> = specs.iter().map(|s| Some(Mailbox::with_capacity(s.cap.max(1)))).collect();
     let addrs: Vec<Address<Node>> = boxes.iter().map(|b| b.as_ref().unwrap().address()).collect();
@@ -259,14 +276,19 @@ fn build(specs: &[ModelSpec], threads: usize, sh: &Arc<Shared>) -> Result<Bench,
                 outs.insert(*port, o);
             }
         }
-        nodes.push(Some(Node { id: i, sh: sh.clone(), outs, reqs, react: s.react.clone(), initops: s.initops.clone() }));
+        nodes.push(Some(Node { id: i, sh: sh.clone(), outs, reqs, react: s.react.clone(), initops: s.initops.clone(), panic_on: s.panic_on, sleep_on: s.sleep_on }));
     }
     // assemble the hierarchy bottom-up (children have larger indices than their parent)
     let mut protos: Vec<Option<NodeProto>> = nodes.into_iter().map(|n| n.map(|node| NodeProto { node, children: Vec::new() })).collect();
     let mut orphans = Vec::new();
     for i in (0..n).rev() {
         if !specs[i].sim {
-            orphans.push(boxes[i].take().unwrap());
+            let mb = boxes[i].take().unwrap();
+            if specs[i].dead {
+                drop(mb); // a mailbox that is no longer alive when messages are sent to it
+            } else {
+                orphans.push(mb);
+            }
             protos[i] = None;
             continue;
         }
@@ -280,14 +302,32 @@ fn build(specs: &[ModelSpec], threads: usize, sh: &Arc<Shared>) -> Result<Bench,
             }
         }
     }
+    let mut srcs: HashMap<usize, nexosim::ports::EventSource<u128>> = HashMap::new();
+    for (sid, conns) in srcs_spec {
+        let mut src = nexosim::ports::EventSource::new();
+        for c in conns {
+            let (add, fm, fr) = (c.add, c.fmod, c.fres);
+            if fm == 0 && add == 0 {
+                src.connect(Node::input, &addrs[c.dst]);
+            } else if fm == 0 {
+                src.map_connect(move |x: &u128| *x + add, Node::input, &addrs[c.dst]);
+            } else {
+                src.filter_map_connect(move |x: &u128| if *x % fm == fr { Some(*x + add) } else { None }, Node::input, &addrs[c.dst]);
+            }
+        }
+        srcs.insert(*sid, src);
+    }
     let mut si = SimInit::with_num_threads(threads);
+    if timeout_ms > 0 {
+        si = si.set_timeout(std::time::Duration::from_millis(timeout_ms));
+    }
     for i in 0..n {
         if specs[i].sim && specs[i].parent.is_none() {
             si = si.add_model(protos[i].take().unwrap(), boxes[i].take().unwrap(), specs[i].name.clone());
         }
     }
     match si.init(MonotonicTime::EPOCH) {
-        Ok((sim, _sched)) => Ok(Bench { chan_ids, sim, addrs, sinks, _orphans: orphans }),
+        Ok((sim, _sched)) => Ok(Bench { chan_ids, sim, addrs, sinks, srcs, _orphans: orphans }),
         Err(e) => Err((exec_err(&e), sinks)),
     }
 }
@@ -443,7 +483,7 @@ impl Engine for Net {
         "net"
     }
     fn serves(&self) -> &'static [&'static str] {
-        &["C02", "C03", "C04", "C06", "C16"]
+        &["C02", "C03", "C04", "C06", "C11", "C16"]
     }
     fn isolated(&self) -> bool {
         true
@@ -481,6 +521,9 @@ impl Engine for Net {
         let mut all_recs: Vec<Rec> = Vec::new();
         let mut any_err = false;
         let mut init_failed = false;
+        let mut timeout_ms = 0u64;
+        let mut srcs_spec: BTreeMap<usize, Vec<ConnSpec>> = BTreeMap::new();
+        let mut fatal_seen = false;
         for l in lines {
             let w: Vec<&str> = l.split_whitespace().collect();
             let log_start = sh.log.lock().unwrap().len();
@@ -535,7 +578,66 @@ impl Engine for Net {
                         "ok".into()
                     }
                 }
-                ["init"] => match build(&specs, threads, &sh) {
+                ["dead", j] => {
+                    let j: usize = j.parse().unwrap();
+                    if j < specs.len() {
+                        specs[j].dead = true;
+                        specs[j].sim = false;
+                        out.tags.push("dropped-mailbox".into());
+                        "ok".into()
+                    } else {
+                        "bad-op".into()
+                    }
+                }
+                ["timeout", ms] => {
+                    timeout_ms = ms.parse().unwrap();
+                    "ok".into()
+                }
+                ["fault", i, kind, p] => {
+                    let i: usize = i.parse().unwrap();
+                    if i < specs.len() {
+                        if *kind == "panic" {
+                            specs[i].panic_on = Some(p.parse().unwrap());
+                        } else {
+                            specs[i].sleep_on = Some(p.parse().unwrap());
+                        }
+                        out.tags.push(format!("fault.{kind}"));
+                        "ok".into()
+                    } else {
+                        "bad-op".into()
+                    }
+                }
+                ["src", sid, dk, dv, "add", a, "fmod", fm, "fres", fr] => {
+                    srcs_spec.entry(sid.parse().unwrap()).or_default().push(ConnSpec {
+                        query: false,
+                        to_sink: *dk == "sink",
+                        dst: dv.parse().unwrap(),
+                        add: a.parse().unwrap(),
+                        fmod: fm.parse().unwrap(),
+                        fres: fr.parse().unwrap(),
+                    });
+                    "ok".into()
+                }
+                ["sev", sid, p] if bench.is_some() => {
+                    let b = bench.as_mut().unwrap();
+                    let sid: usize = sid.parse().unwrap();
+                    let res = match b.srcs.get_mut(&sid) {
+                        Some(src) => {
+                            let action = src.event(p.parse::<u128>().unwrap());
+                            b.sim.process(action)
+                        }
+                        None => {
+                            // a source without any connection: the action does nothing (but is still refused after a fatal error)
+                            let mut empty = nexosim::ports::EventSource::<u128>::new();
+                            b.sim.process(empty.event(p.parse::<u128>().unwrap()))
+                        }
+                    };
+                    let recs = sh.log.lock().unwrap()[log_start..].to_vec();
+                    any_err |= res.is_err();
+                    let rs = res.as_ref().map(|_| "ok".to_string()).unwrap_or_else(|e| exec_err(e));
+                    render(&rs, &recs, &mut b.sinks, None)
+                }
+                ["init"] => match build(&specs, &srcs_spec, timeout_ms, threads, &sh) {
                     Ok(b) => {
                         bench = Some(b);
                         let recs = sh.log.lock().unwrap()[log_start..].to_vec();
@@ -572,12 +674,25 @@ impl Engine for Net {
                     };
                     render(&rs, &recs, &mut b.sinks, extra)
                 }
-                ["ev", ..] | ["qr", ..] if init_failed => "terminated | I  | H  | R  | K ".into(),
+                ["ev", ..] | ["qr", ..] | ["sev", ..] if init_failed => "terminated | I  | H  | R  | K ".into(),
                 _ => "bad-op".into(),
             };
             let recs = sh.log.lock().unwrap()[log_start..].to_vec();
             n_handled += recs.iter().filter(|r| matches!(r, Rec::Handle(..))).count();
-            if matches!(w[0], "init" | "ev" | "qr") && !r.starts_with("terminated") && !r.starts_with("bad-op") {
+            if matches!(w[0], "init" | "ev" | "qr" | "sev") {
+                let first = r.split(" | ").next().unwrap_or("").to_string();
+                if fatal_seen {
+                    if first != "terminated" {
+                        out.monitor.push(("C11".into(), format!("`{l}` returned `{first}` after a fatal error: it must return Terminated")));
+                    } else if threads == 1 && timeout_ms == 0 && recs.iter().any(|x| matches!(x, Rec::Handle(..) | Rec::Init(_))) {
+                        out.monitor.push(("C11".into(), format!("`{l}` returned Terminated but model code ran")));
+                    }
+                }
+                if !(first == "ok" || first == "bad-query" || first == "bad-op" || first == "terminated") {
+                    fatal_seen = true;
+                }
+            }
+            if matches!(w[0], "init" | "ev" | "qr" | "sev") && !r.starts_with("terminated") && !r.starts_with("bad-op") && !r.starts_with("panic") && !r.starts_with("no-recipient") && !r.starts_with("timeout") && !r.starts_with("bad-query") {
                 let got = r.split(" | ").next().unwrap_or("").to_string();
                 let exp = expected_report(&specs);
                 if got != exp && (got == "ok" || got.starts_with("deadlock") || got.starts_with("message-loss")) {
@@ -661,15 +776,27 @@ impl Engine for Net {
         // A stalled run (deadlock / message loss) stops in a schedule-dependent state: two stalled answers agree;
         // the exactness of the report is checked against the ground truth by the C06 monitor.
         let stalled = |s: &str| s.starts_with("deadlock") || s.starts_with("message-loss");
-        impl_r == model_r || (stalled(impl_r) && stalled(model_r))
+        let first = |s: &str| s.split(" | ").next().unwrap_or("").to_string();
+        let faulted = |s: &str| s.starts_with("panic") || s.starts_with("no-recipient") || s.starts_with("timeout");
+        // after a panic / missing recipient / timeout the other workers stop at an arbitrary point: only the error
+        // (kind and attribution) is compared
+        impl_r == model_r || (stalled(impl_r) && stalled(model_r)) || (faulted(model_r) && first(impl_r) == first(model_r))
     }
     fn blame(&self, req: &str, impl_r: &str, model_r: &str) -> Vec<&'static str> {
         // result kinds and report contents are fixed by C06; the multiset of handler invocations of a completed
         // call by C03/C04; init records by C16.
         let part = |s: &str, i: usize| s.split(" | ").nth(i).unwrap_or("").to_string();
         let mut v = Vec::new();
+        let faulty = |s: &str| s.starts_with("panic") || s.starts_with("no-recipient") || s.starts_with("timeout") || s.starts_with("terminated");
         if part(impl_r, 0) != part(model_r, 0) {
-            v.push("C06");
+            if faulty(&part(impl_r, 0)) || faulty(&part(model_r, 0)) {
+                v.push("C11");
+                if part(impl_r, 0).starts_with("panic") && part(model_r, 0).starts_with("panic") {
+                    v.push("C16");
+                }
+            } else {
+                v.push("C06");
+            }
         }
         if part(impl_r, 0) == "ok" && part(model_r, 0) == "ok" {
             if part(impl_r, 2) != part(model_r, 2) || part(impl_r, 4) != part(model_r, 4) {
@@ -731,6 +858,8 @@ fn gen_case(rng: &mut Rng, _idx: usize, tier: Tier, focus: &str) -> Case {
     }
     let orphan_idx = n;
     let mut total = n;
+    const BIG: u64 = 999_999_999_999_999_989;
+    const TRIG: u64 = 333;
     if with_orphan {
         lines.push(format!("model {orphan_idx} cap {} sim 0 parent - name orphan", rng.range(1, 3)));
         total += 1;
@@ -774,8 +903,6 @@ fn gen_case(rng: &mut Rng, _idx: usize, tier: Tier, focus: &str) -> Case {
     // a deterministic stall on one model: 1 = query loop-back, 2 = saturating self-send, 3 = transitive query loop
     let mut stall_line: Vec<String> = Vec::new();
     let mut stall_other: Option<usize> = None;
-    const BIG: u64 = 999_999_999_999_999_989;
-    const TRIG: u64 = 333;
     // the partner of a transitive query loop has a larger index, so that no forward edge leads back into the loop
     let stall_model = if stall == 3 { rng.below(n as u64 - 1) as usize } else { rng.below(n as u64) as usize };
     let stall_port = 7usize;
@@ -799,7 +926,59 @@ fn gen_case(rng: &mut Rng, _idx: usize, tier: Tier, focus: &str) -> Case {
         }
         _ => {}
     }
+    // ---- fault variants (C11 / C16): panic in a (sub-)model, port send to a dropped mailbox, overrunning handler
+    let fault_kind = if focus == "C11" { rng.range(1, 4) } else if rng.chance(1, 8) { rng.range(1, 4) } else { 0 };
+    let fault_model = rng.below(n as u64) as usize;
+    let dead_idx = total;
+    let mut fault_lines: Vec<String> = Vec::new();
+    let mut fault_cmds: Vec<String> = Vec::new();
+    let mut src_lines: Vec<String> = Vec::new();
+    match fault_kind {
+        1 => {
+            fault_lines.push(format!("fault {fault_model} panic 444"));
+            fault_cmds.push(format!("ev {fault_model} 444"));
+        }
+        2 => {
+            lines.push(format!("model {dead_idx} cap 1 sim 0 parent - name gone"));
+            lines.push(format!("dead {dead_idx}"));
+            total += 1;
+            if rng.chance(2, 3) {
+                conn_lines.push(format!("conn {fault_model} 8 ev dead {dead_idx} add 0 fmod 0 fres 0"));
+                fault_lines.push(format!("react {fault_model} ev 8 cmod {BIG} cres 555"));
+                // harmless direct sends to the dropped mailbox first (ignored / BadQuery), then the port send
+                fault_cmds.push(format!("ev {dead_idx} 5"));
+                fault_cmds.push(format!("qr {dead_idx} 6"));
+                fault_cmds.push(format!("ev {fault_model} 555"));
+            } else {
+                src_lines.push(format!("src 9 dead {dead_idx} add 0 fmod 0 fres 0"));
+                src_lines.push(format!("src 9 box {fault_model} add 0 fmod 0 fres 0"));
+                fault_cmds.push("sev 9 7".into());
+            }
+        }
+        3 => {
+            fault_lines.push(format!("fault {fault_model} sleep 666"));
+            fault_lines.push("timeout 120".into());
+            fault_cmds.push(format!("ev {fault_model} 666"));
+        }
+        _ => {}
+    }
+    // ---- an EventSource with several connections, often to the same (small) mailbox
+    let with_src = rng.chance(1, 3) || focus == "C03";
+    if with_src {
+        let nconn = rng.range(1, 5);
+        let tgt = rng.below(n as u64);
+        for _ in 0..nconn {
+            let j = if rng.chance(2, 3) { tgt } else { rng.below(n as u64) };
+            let (add, fm, fr) = match rng.below(3) {
+                0 => (1_000_000_000_000_000u64 * rng.range(1, 3), 0, 0),
+                1 => (0, 2, rng.below(2)),
+                _ => (0, 0, 0),
+            };
+            src_lines.push(format!("src 0 box {j} add {add} fmod {fm} fres {fr}"));
+        }
+    }
     lines.extend(conn_lines);
+    lines.extend(src_lines);
     // scripts
     let mut react_count = vec![0u64; n];
     for i in 0..n {
@@ -824,6 +1003,7 @@ fn gen_case(rng: &mut Rng, _idx: usize, tier: Tier, focus: &str) -> Case {
         stall_line.push(format!("react {other} q {stall_port} cmod {BIG} cres {child}"));
     }
     lines.extend(stall_line);
+    lines.extend(fault_lines);
     lines.push("init".into());
     let ncmd = rng.range(1, 5);
     for c in 0..ncmd {
@@ -834,6 +1014,22 @@ fn gen_case(rng: &mut Rng, _idx: usize, tier: Tier, focus: &str) -> Case {
             lines.push(format!("qr {j} {root}"));
         } else {
             lines.push(format!("ev {j} {root}"));
+        }
+    }
+    if with_src {
+        for c in 0..rng.range(1, 3) {
+            lines.push(format!("sev 0 {}", 60 + c));
+        }
+    }
+    if !fault_cmds.is_empty() {
+        lines.extend(fault_cmds);
+        // whatever follows a fatal error must answer Terminated
+        for c in 0..rng.range(1, 4) {
+            match rng.below(3) {
+                0 => lines.push(format!("ev {} {}", rng.below(n as u64), 70 + c)),
+                1 => lines.push(format!("qr {} {}", rng.below(n as u64), 80 + c)),
+                _ => lines.push(format!("sev 0 {}", 90 + c)),
+            }
         }
     }
     if stall != 0 {
